@@ -45,8 +45,17 @@ Inductive rdr :=
 | IndexNew | IndexOnlyFullTrees
 | CatFileFull | CatFilePrefix.
 
+Scheme Equality for rdr.
+
 Definition all_rdr : list rdr :=
   [StreamAll; StreamList; GetFile; FindStartsWith; FindIdsFull; FindIdsPrefix; SnapIterAll; SnapLatest;
    SnapFromStrLatest; SnapFromStrPrefix; SnapFromStrId; SnapFromStrsLatest; SnapFromStrsPrefix;
    SnapFromStrsIdsOnly; SnapUpdateFromIdsFull; SnapUpdateFromIdsPrefix; SnapUpdateFromBackend;
    IndexNew; IndexOnlyFullTrees; CatFileFull; CatFilePrefix].
+
+(* the commands of the property (and their variants by how snapshots are named); the readers
+   each of them uses are regenerated from the source into Extracted.cmd_readers *)
+Inductive cmd :=
+| CmdBackup | CmdBackupParentPrefix | CmdBackupParentLatest | CmdBackupParentFullIds
+| CmdForgetAll | CmdForgetPrefix | CmdForgetFullIds
+| CmdPrune | CmdCheck.
